@@ -225,6 +225,8 @@ def lexer_check(ctx, gen_opts, ndefs, ninputs, projs, ctors=(0,), clone=False, n
         if c.model.get("modelcerts") is False and prop in CERT_PROPS:
             ctx.broken("model-certificate", "certs_ok_b fails on the model's own automata (hypothesis of lexer_correct)", describe(c))
         art = compare_artifacts(c.impl, c.model, stages) if stages else {}
+        if c.impl.get("harmless_differences"):
+            dist["renumberings_tolerated"] = dist.get("renumberings_tolerated", 0) + 1
         stream_viol = False
         for i, (ct, cps, cl) in enumerate(c.inputs):
             I = lines_of(c.impl_runs.get(i, []), "I")
